@@ -167,6 +167,8 @@ def run(repo, rep, tier):
     content_length_rule(rep, repo.cls('pywbem/_listener.py',
                                       'ListenerRequestHandler'), 'C03.R7')
     strict_wire_encoding(repo, rep)
+    from .c13 import no_memoised_parsers
+    no_memoised_parsers(repo, rep, 'C03.R9', 'pywbem/_cim_obj.py')
     D = dtdmod.load(repo)
     W = X.writers(repo)
     cons = X.constructed_elements(repo)
